@@ -1,7 +1,120 @@
 import Driver.Common
-open Drv
+import KatdalModel.Model.ApplyCalFloat
+open Np Drv ApplyCal
 
-/-- stub driver for C13: replaced when the property's model lands -/
-def step (_line : String) : String := "bad-op"
+/-!
+  requests (S-expression tokens, see ApplyCalFloat.lean):
+
+  calc ( (name inp ( (c c ..) .. )) .. )  ( (l1 l2) .. )  ( name .. )  ( f .. )  ( (stream ( f .. )) .. )
+       skip  ( tchunk .. )  ( fchunk .. )
+    -> `ok ( names ) ( (kind e..) .. ) <mirror [t][f][b]> <spec [t][f][b]>` | `E:<Error>`
+       mirror = calcCorrection + assemble over the chunking; spec = specByLabel pointwise
+  kern ( vis.. ) ( weights.. ) ( flags.. ) ( corr.. )
+    -> `ok ( vis.. ) ( weights.. ) ( flags.. )`
+  inputs ( (l1 l2) .. )     -> sorted input list and the two index lists
+  expand ( f.. ) ( g.. )    -> nearest-channel map
+-/
+
+abbrev Sensor := List (List CF)
+
+def parseSensorTable (x : SX) : Option (List (String × String × Sensor)) :=
+  x.listOf? fun e => match e with
+    | .list [n, i, s] => do
+      let n ← n.str?
+      let i ← i.str?
+      let s ← s.listOf? (·.listOf? SX.cf?)
+      pure (n, i, s)
+    | _ => none
+
+def parsePairs (x : SX) : Option (List (String × String)) :=
+  x.listOf? fun e => match e with
+    | .list [a, b] => do pure ((← a.str?), (← b.str?))
+    | _ => none
+
+def parseFreqTable (x : SX) : Option (List (String × List Float)) :=
+  x.listOf? fun e => match e with
+    | .list [a, b] => do pure ((← a.str?), (← b.listOf? SX.float?))
+    | _ => none
+
+def lookupSensor (tab : List (String × String × Sensor)) (name inp : String) : Option Sensor :=
+  (tab.find? fun e => e.1 == name && e.2.1 == inp).map (·.2.2)
+
+def lookupFreqs (tab : List (String × List Float)) (s : String) : Option (List Float) :=
+  (tab.find? fun e => e.1 == s).map (·.2)
+
+def showArr3 (a : List (List (List CF))) : String := showList (showList (showList showCF)) a
+
+def showCmap : ChanMap → String
+  | .broadcast => "( b )"
+  | .direct => "( d )"
+  | .expand e => "( e " ++ " ".intercalate (e.map toString) ++ " )"
+
+/-- atol = 1e-3 as in the source -/
+def atol : Float := 1e-3
+
+def doCalc (args : List SX) : Option String :=
+  match args with
+  | [st, cps, names, df, cft, skip, ct, cf] => do
+    let st ← parseSensorTable st
+    let cps ← parsePairs cps
+    let names ← names.listOf? SX.str?
+    let df ← df.listOf? SX.float?
+    let cft ← parseFreqTable cft
+    let skip ← skip.bool?
+    let ct ← ct.listOf? SX.nat?
+    let cf ← cf.listOf? SX.nat?
+    let sensors := lookupSensor st
+    let r : Except Err String := do
+      let P ← calcCorrection sensors cps names df (lookupFreqs cft) atol skip
+      let finals := P.prods.map (·.name)
+      if P.prods.isEmpty then
+        pure s!"none {showList showStr finals}"
+      else
+        let mirror ← assemble floatAlg P cf 0 ct
+        let T := ct.sum
+        let Fn := cf.sum
+        let pc := P.prods.map fun p => (p.name, p.cmap)
+        let spec := (List.range T).map fun t => (List.range Fn).map fun f =>
+          cps.map fun cp => specByLabel floatAlg sensors pc cp.1 cp.2 t f
+        pure s!"ok {showList showStr finals} {showList showCmap (P.prods.map (·.cmap))} {showArr3 mirror} {showArr3 spec}"
+    pure (match r with | .ok s => s | .error e => showErr e)
+  | _ => none
+
+def doKern (args : List SX) : Option String :=
+  match args with
+  | [v, w, fl, c] => do
+    let v ← v.listOf? SX.cf?
+    let w ← w.listOf? SX.float?
+    let fl ← fl.listOf? SX.nat?
+    let c ← c.listOf? SX.cf?
+    let ov := List.zipWith (applyVis1 floatAlg) v c
+    let ow := List.zipWith (applyWeight1 floatAlg) w c
+    let ofl := List.zipWith (applyFlag1 floatAlg) fl c
+    pure s!"ok {showList showCF ov} {showList showFloat ow} {showList toString ofl}"
+  | _ => none
+
+def doInputs (args : List SX) : Option String :=
+  match args with
+  | [cps] => do
+    let cps ← parsePairs cps
+    let inputs := sortedInputs cps
+    pure s!"ok {showList showStr inputs} {showList toString (cps.map fun cp => inputs.idxOf cp.1)} {showList toString (cps.map fun cp => inputs.idxOf cp.2)}"
+  | _ => none
+
+def doExpand (args : List SX) : Option String :=
+  match args with
+  | [df, cf] => do
+    let df ← df.listOf? SX.float?
+    let cf ← cf.listOf? SX.float?
+    pure s!"ok {showList toString (expandMap df cf)}"
+  | _ => none
+
+def step (line : String) : String :=
+  match parseLine line with
+  | some (.atom "calc" :: args) => (doCalc args).getD "bad-op"
+  | some (.atom "kern" :: args) => (doKern args).getD "bad-op"
+  | some (.atom "inputs" :: args) => (doInputs args).getD "bad-op"
+  | some (.atom "expand" :: args) => (doExpand args).getD "bad-op"
+  | _ => "bad-op"
 
 def main : IO Unit := Drv.loop step
